@@ -157,8 +157,9 @@ theorem IAm_refines_Isa (ds : List Asm.Dir) (img : Asm.Image) (g : IAm.Good ds i
     or`; no subscripts, strings, calls).  If the reference semantics evaluates `e` to the integer
     `v`, the code `ExprCodeGen` emits for `OptimiseExpr (ConstProp e)` satisfies the triple
     `ExecA`: located anywhere in the lowered program, started by `IAm` in any machine state that
-    represents the source state (`Rep`), with its frame need inside the frame, it runs to its end
-    with `v` in areg, the memory still represents the source state, and only frame slots
+    represents the source state (`Rep`; the I/O state is the source state's), with its frame need
+    inside the frame, it runs to its end with `v` in areg and the I/O state unchanged, the memory
+    still represents the source state, and below the frame's top only frame slots
     `[offset, size')` of the current frame were written. -/
 theorem C01_stage2_partial (K : C01s.PCtx) (wf : K.WF) (fuel : Nat) (e : X.Expr) (σ : X.St) (v : Word) (σ' : X.St)
     (hr : C01s.pureE e = true) (hev : X.eval fuel K.xc e σ = .ok (.int v) σ') :
